@@ -226,6 +226,18 @@ func writeNamesFile(c *Ctx, path string) error {
 	return os.WriteFile(path, append(b, '\n'), 0o644)
 }
 
+// sortedSig: a signature string "(t1, t2) (r1)" with its parameter types sorted,
+// so that a reordered parameter list compares equal.
+func sortedSig(sig string) string {
+	i := strings.Index(sig, ") (")
+	if i < 0 {
+		return sig
+	}
+	ps := strings.Split(strings.TrimPrefix(sig[:i], "("), ", ")
+	sort.Strings(ps)
+	return "(" + strings.Join(ps, ", ") + sig[i:]
+}
+
 func jaccard(a, b []string) float64 {
 	if len(a) == 0 && len(b) == 0 {
 		return 1
@@ -522,11 +534,18 @@ func computeRenames(c *Ctx, g *goldenNames) *renameSet {
 					continue
 				}
 				ce := cur.g.Funcs[e]
-				if canonStr(ce.Recv) != gm.Recv || canonStr(ce.Sig) != gm.Sig {
+				if canonStr(ce.Recv) != gm.Recv {
 					continue
 				}
-				ncand++
+				sameSig := canonStr(ce.Sig) == gm.Sig
+				if !sameSig && sortedSig(canonStr(ce.Sig)) != sortedSig(gm.Sig) {
+					continue
+				}
 				s := jaccard(gm.Feats, canonFeat(ce.Feats))
+				if !sameSig && s < 0.7 {
+					continue // renamed AND parameters reordered: only with a very similar body
+				}
+				ncand++
 				if s > best {
 					second, best, bestN = best, s, e
 				} else if s > second {
